@@ -320,7 +320,7 @@ theorem gcStep_PGid {N : Nat} {K : Array (List Nat)} (hN : 0 < N) (acc : Ctx × 
   · exact h
 
 theorem gc_PGid {N : Nat} {K : Array (List Nat)} (hN : 0 < N) (c : Ctx) (a : Option Nat) (h : PGid N K c) : PGid N K (collectGarbage c a).1 := by
-  unfold collectGarbage
+  rw [collectGarbage_fst]; unfold gcCells
   generalize (List.range (c.size - 1)) = ks
   have : ∀ (ks : List Nat) (acc : Ctx × Option Nat), PGid N K acc.1 → PGid N K (ks.foldl gcStep acc).1 := by
     intro ks
